@@ -270,6 +270,65 @@ func (g *cgen) scriptedOp() (ContOp, bool) {
 	}
 }
 
+// failOp: operations that fail half way (the operand raises after yielding
+// some items, the key function raises at its k-th call, an index or key is
+// absent): what the container looks like afterwards is part of the history.
+func (g *cgen) failOp() (ContOp, bool) {
+	r := g.r
+	k := r.Intn(4)
+	gen := fmt.Sprintf("_fg(%d)", k)
+	switch r.Intn(10) {
+	case 0, 1, 2, 3:
+		xi, ok := g.of("list")
+		if !ok {
+			return ContOp{}, false
+		}
+		x := a(xi)
+		switch r.Intn(8) {
+		case 6:
+			return st("fail.list.sort-reverse-truth", fmt.Sprintf("try:\n    %s.sort(reverse=_BadTruth())\n    log(\"no error\")\nexcept Exception:\n    pass", x)) // (which exception class: an argument-type question, not a container one)
+		case 7:
+			return st("fail.list.sort-key-uncallable", fmt.Sprintf("%s.sort(key=5)", x))
+		case 0:
+			return st("fail.list.extend", fmt.Sprintf("%s.extend(%s)", x, gen))
+		case 1:
+			return st("fail.list.iadd", fmt.Sprintf("%s += %s", x, gen))
+		case 2:
+			return st("fail.list.setslice", fmt.Sprintf("%s[1:2] = %s", x, gen))
+		case 3:
+			return st("fail.list.sort-key", fmt.Sprintf("_fk[0] = %d\n%s.sort(key=_fkey)", k, x))
+		case 4:
+			return st("fail.list.setslice.ext-size", fmt.Sprintf("%s[::2] = [1, 2, 3, 4, 5, 6, 7]", x))
+		default:
+			return st("fail.list.index", fmt.Sprintf("%s[%d] = 1", x, 300+k))
+		}
+	case 4, 5, 6:
+		xi, ok := g.of("dict")
+		if !ok {
+			return ContOp{}, false
+		}
+		x := a(xi)
+		switch r.Intn(3) {
+		case 0:
+			return st("fail.dict.update-pairs", fmt.Sprintf("%s.update(_fp(%d))", x, k))
+		case 1:
+			return st("fail.dict.update-bad-item", fmt.Sprintf("%s.update([(\"k0\", 1), 5])", x))
+		default:
+			return st("fail.dict.delitem", fmt.Sprintf("del %s[\"absent\"]", x))
+		}
+	default:
+		xi, ok := g.of("set")
+		if !ok {
+			return ContOp{}, false
+		}
+		x := a(xi)
+		if r.Chance(1, 2) {
+			return st("fail.set.update", fmt.Sprintf("%s.update(%s)", x, gen))
+		}
+		return st("fail.set.update-second-arg", fmt.Sprintf("%s.update([50, 51], %s)", x, gen))
+	}
+}
+
 // tupleOp: copies between lists and the two observed tuples t0/t1 (a tuple
 // never changes, whatever is done to a list built from it or to the list it
 // was built from).
@@ -319,6 +378,9 @@ func (g *cgen) op(mixed bool) (ContOp, bool) {
 	}
 	if r.Chance(1, 10) {
 		return g.tupleOp()
+	}
+	if r.Chance(1, 10) {
+		return g.failOp()
 	}
 	switch r.Intn(10) {
 	case 0, 1, 2, 3, 4, 5:
@@ -564,6 +626,7 @@ func (g *cgen) setOp(mixed bool) (ContOp, bool) {
 func (p *ContProg) Render() string {
 	var b strings.Builder
 	b.WriteString("from simlog import log, exc_name, hcall\nit0 = iter([])\nit1 = iter([])\n")
+	b.WriteString("def _fg(k):\n    for _i in range(5):\n        if _i == k:\n            raise ValueError(\"P\")\n        yield 20 + _i\ndef _fp(k):\n    for _i in range(5):\n        if _i == k:\n            raise ValueError(\"P\")\n        yield (\"k%d\" % _i, 30 + _i)\nclass _BadTruth:\n    def __bool__(self):\n        raise ValueError(\"P\")\n_fk = [0]\ndef _fkey(v):\n    _fk[0] -= 1\n    if _fk[0] == 0:\n        raise ValueError(\"P\")\n    return -v\n")
 	for i, e := range p.Init {
 		fmt.Fprintf(&b, "a%d = %s\n", i, e)
 	}
